@@ -83,6 +83,23 @@ Theorem C19_prefix_no_unpaired_exit : forall c f p q, (c_fixed c = true \/ nobad
 Proof. exact prefix_no_underflow. Qed.
 Print Assumptions C19_prefix_no_unpaired_exit.
 
+(* ... but the real stream of a script that ends by sys.exit() or an uncaught exception continues
+   with the returns of two runpy frames that were never entered under the profiler: two unpaired
+   exits reach libmcount in default and --nest-libcall mode (none with --no-libcall) *)
+Theorem C19_exit_by_exception_refuted :
+  no_underflow (snd (run (cfg_plain LSingle) st0 exit_stream)) = false /\
+  snd (mc_run [] (snd (run (cfg_plain LSingle) st0 exit_stream))) = 2%nat /\
+  snd (mc_run [] (snd (run (cfg_plain LNested) st0 exit_stream))) = 2%nat /\
+  no_underflow (snd (run (cfg_plain LNone) st0 exit_stream)) = true.
+Proof. exact exit_by_exception_witness. Qed.
+Print Assumptions C19_exit_by_exception_refuted.
+
+(* the repair proposed for it (ignore a return at call depth 0) is the identity on well-formed streams *)
+Theorem C19_depth_guard_transparent : forall fns f d rest,
+  depth_guard d (ievents fns f ++ rest) = ievents fns f ++ depth_guard d rest.
+Proof. exact depth_guard_ievents. Qed.
+Print Assumptions C19_depth_guard_transparent.
+
 (* the specification factorises into the filter selection and the library policy *)
 Theorem C19_spec_factors : forall c f ci co l, select c ci co l f = libprune (c_lib c) l (fsel c ci co f).
 Proof. exact select_factors. Qed.
